@@ -413,6 +413,28 @@ def float_buffers(ctx):
     dtypeflow.float_buffers(ctx, 'FLOAT-BUFFERS', ISM, 'ISMPath.unittangent', floor=3, attrs=base, what='the unit difference vectors')
 
 
+def rate_type(ctx):
+    """one step is coord + h * rate in the element type numpy promotes to: nothing inside the integrators is cast to the element type of the coordinates the caller gave
+    (whole-number coordinates -- an integer array, a list of ints -- would truncate the rate, and the step would no longer be the Taylor polynomial applied to y)"""
+    n = 0
+    for rel, q in ((EU, 'euler'), (RK, 'rungekutta')):
+        fn = ctx.fn(rel, q)
+        n += 1
+        bad = []
+        for c in ast.walk(fn):
+            if not isinstance(c, ast.Call):
+                continue
+            from_coord = lambda e: any(isinstance(x, ast.Name) and x.id == 'coord' for x in ast.walk(e))
+            for k in c.keywords:
+                if k.arg == 'dtype' and from_coord(k.value):
+                    bad.append(c)
+            if isinstance(c.func, ast.Attribute) and c.func.attr == 'astype' and any(from_coord(a) for a in list(c.args) + [k.value for k in c.keywords]):
+                bad.append(c)
+        ctx.ob('RATE-TYPE', '%s::%s' % (rel, q), 'no value inside the step is cast to the element type of the coordinates passed in (dtype=/astype taken from coord)', not bad,
+               '; '.join('%s at line %d' % (norm(b)[:80], b.lineno) for b in bad), node=bad[0] if bad else fn, key='rate type %s' % q)
+    ctx.floor('RATE-TYPE', n, 2)
+
+
 def named_functions(ctx):
     """the setters that accept a function by name: each documented name selects the function of that name ('euler' the Euler step, 'rk' / 'rungekutta' the Runge-Kutta
     step, 'cdiff' / 'central_difference' the central difference), a callable is kept as given, anything else is refused"""
@@ -459,4 +481,4 @@ def run(ctx):
                        'cubic and its error expanded in the step; default-argument feasibility is a contradiction rule on the constructors; '
                        'the string step\'s rate laws, tangents and image selection are extracted and compared with the documented formulas. '
                        'Not decided: convergence to the minima/saddle.')
-    ctx.run_rules([lambda c: linear_order(c, EU, 'euler', 1), lambda c: linear_order(c, RK, 'rungekutta', 4), cdiff, default_feasible, string_step, pure_step, step_model, relax_model, relax_criterion, float_buffers, named_functions])
+    ctx.run_rules([lambda c: linear_order(c, EU, 'euler', 1), lambda c: linear_order(c, RK, 'rungekutta', 4), cdiff, default_feasible, string_step, pure_step, step_model, relax_model, relax_criterion, float_buffers, rate_type, named_functions])
